@@ -48,7 +48,7 @@ def judge(ctx, c, yaml, yatiml, label):
     try:
         orc = PO.Oracle(c.model, yaml, yatiml, c.real.loader_cls)
         del c.model.log[:]
-        want = ('ok', orc.load(node, c.doc_type))
+        want = ('ok', orc.load_document(node, c.doc_type))
     except PO.Reject as e:
         want = ('rec', str(e))
     except PO.Undefined as e:
